@@ -2,7 +2,7 @@
 Run-time contract: attaching a JSONL trace driver at any detail level does not change what a run returns or raises; two runs of
 the same configuration on the same payload give identical traces after removing the documented volatile fields (run id,
 timestamps, durations, sequence numbers), also with unrelated runs in between and through one reused Pipeline object.
-Bound: 14 pipelines (succeeding and failing, with probes, rename/delete, sweeps) x 4 detail levels."""
+Bound: 15 pipelines (succeeding and failing, with probes, rename/delete, sweeps) x 4 detail levels."""
 import json, sys, os, tempfile, logging, copy
 logging.disable(logging.CRITICAL)
 from pathlib import Path
@@ -43,6 +43,18 @@ class RaisesSetArg(_FloatOperation):
         raise ValueError({"low", "high"})
 
 
+class HugeLen(_FloatDataType):
+    """a data object whose __len__ raises OverflowError (a size above sys.maxsize)"""
+
+    def __len__(self):
+        raise OverflowError("cannot fit 'int' into an index-sized integer")
+
+
+class MakesHugeLen(_FloatOperation):
+    def _process_logic(self, data):
+        return HugeLen(data.data)
+
+
 class RaisesNoArgs(_FloatOperation):
     def _process_logic(self, data):
         raise KeyError()
@@ -51,6 +63,7 @@ class RaisesNoArgs(_FloatOperation):
 CONFIGS = [(n, nodes, ctx) for n, nodes, ctx in idlib.base_configs()] + [
     ("fail-exception-wrapping-an-exception", [{"processor": "FloatValueDataSourceWithDefault"}, {"processor": RaisesWrapped}], {}),
     ("fail-exception-with-a-set-argument", [{"processor": "FloatValueDataSourceWithDefault"}, {"processor": RaisesSetArg}], {}),
+    ("data-whose-len-raises", [{"processor": "FloatValueDataSourceWithDefault"}, {"processor": MakesHugeLen}, {"processor": "FloatMultiplyOperation", "parameters": {"factor": 2.0}}], {}),
     ("fail-exception-without-arguments", [{"processor": "FloatValueDataSourceWithDefault"}, {"processor": RaisesNoArgs}], {}),
     ("param-mapping-with-mixed-key-types", [{"processor": "FloatValueDataSourceWithDefault"}, {"processor": UsesTable}], {"table": {1: "a", "b": 2}}),
     ("param-not-json-serialisable", [{"processor": "FloatValueDataSourceWithDefault"}, {"processor": UsesTable}], {"table": {"k": {1, 2}, "o": object}}),
@@ -152,7 +165,7 @@ for name, nodes, ctx in CONFIGS:
                              "b": json.dumps(strip(t2)[diff], sort_keys=True)[:300] if diff is not None else len(t2)})
     if len(samples) < 2:
         samples.append({"config": name, "outcome": base[:2], "records": [r["record_type"] for r in t1]})
-print(json.dumps({"bound": "14 configurations (plain, three failing with non-JSON / wrapped / empty exception arguments, two with non-JSON parameter values (mixed key types, sets), identical nodes, 3 sweeps, unresolvable parameter, type gate, context flow with rename/delete, unknown parameter) x 4 detail levels; unrelated runs in between; 4 configurations x 2 detail levels compared with a fresh interpreter after traced runs at other detail levels",
+print(json.dumps({"bound": "15 configurations (plain, one whose data object has a raising __len__, three failing with non-JSON / wrapped / empty exception arguments, two with non-JSON parameter values (mixed key types, sets), identical nodes, 3 sweeps, unresolvable parameter, type gate, context flow with rename/delete, unknown parameter) x 4 detail levels; unrelated runs in between; 4 configurations x 2 detail levels compared with a fresh interpreter after traced runs at other detail levels",
                   "evaluations": evaluations, "distinct_nontrivial": len(distinct),
                   "rule": "distinct = (configuration, detail level); outcome = returned data/context or exception type+message; traces compared after removing run_id, timestamps, timing, seq",
                   "failures": failures[:20], "samples": samples}, default=str))
